@@ -36,7 +36,7 @@ ASSUMPTIONS = ['expected function = real dense-time offline monitor on the whole
 REAL = common.REAL_ALL
 STUBS = common.STUBS_ALL
 PROBES = ['sensors_start_at_different_instants', 'cut_at_window_edge', 'empty_batch', 'pastified', 'skewed_schedule', 'one_sample_batches', 'schedules_enumerated_exhaustively',
-          'epoch_time_stamps']
+          'epoch_time_stamps', 'nano_scale_values']
 INTERLEAVING_MEASURE = 'distinct chunking patterns (per variable: tuple of batch sizes per update)'
 ENVELOPE_RULES = ['memory-past-above-delayed (F08)',
                   'bounded-op-nonzero-start (F14a): offline comparison skipped, schedules still compared']
@@ -80,8 +80,10 @@ def _gen(rng, tier):
     signals = {}
     late = rng.random() < 0.3          # sensors that come up at different instants
     epoch_q = 4 * 1700000000 if rng.random() < 0.1 else 0     # stamps are wall-clock seconds since 1970 (still exact quarters)
+    style = 'nano' if rng.random() < 0.1 else None
     for v in vars_:
-        s, _ = world.gen_dense_signal(rng, rng.randint(2, 12 if big else 8), start_q=epoch_q + (rng.randint(0, 6) if late else 0), max_gap_q=rng.choice([2, 4, 6]))
+        s, _ = world.gen_dense_signal(rng, rng.randint(2, 12 if big else 8), start_q=epoch_q + (rng.randint(0, 6) if late else 0), max_gap_q=rng.choice([2, 4, 6]),
+                                      style=style)
         signals[v] = s
     text = common.dense_text(ast, sg.Spelling(rng))
     # skewed schedules: per variable independent cut points, realised as rounds
@@ -209,6 +211,8 @@ def run(sc):
         r.probes['schedules_enumerated_exhaustively'] += 1
     if sc.get('pastify'):
         r.probes['pastified'] += 1
+    if any(0 < abs(x) < 1e-8 for v in sc['signals'] for _, x in sc['signals'][v]):
+        r.probes['nano_scale_values'] += 1
     if any(sc['signals'][v][0][0] > 1e9 for v in sc['signals']):
         r.probes['epoch_time_stamps'] += 1
     edges = set()
